@@ -99,7 +99,7 @@ pub fn canonical(w: &World, res: &EvalOut, h_in: &BTreeMap<String, String>, extr
         extra,
         w.cfg.stamps as u64,
         (w.cfg.scope == Scope::Consumed) as u64,
-        (w.cfg.names == Names::Outputs) as u64,
+        (w.cfg.names == Names::Outputs) as u64 + 2 * w.cfg.anon as u64,
     ];
     for s in act.iter() {
         let id = w.id(*s);
@@ -173,6 +173,7 @@ pub fn run_case(sc: &Scenario, mode: &Mode) -> CaseOut {
         1 => out.count("scenarios_with_motif_late_needed_ephemeral"),
         2 => out.count("scenarios_with_motif_ephemeral_chain"),
         3 => out.count("scenarios_with_motif_shared_ephemeral_concurrent"),
+        4 => out.count("scenarios_with_motif_fan_in"),
         _ => out.count("scenarios_without_motif"),
     }
     for (i, step) in sc.steps.iter().enumerate() {
